@@ -484,7 +484,14 @@ pub fn run(cfg: &RunCfg, t0: Instant) -> i32 {
         "C05" => {
             let shards = cfg.pick(4, 32);
             let n = cfg.pick(2_500, 12_000);
-            let mut rep = crate::run_shards(cfg, shards, |s| farm_shard(cfg, s, n, vec![Box::new(c05::C05::new(cfg.seed * 37 + s as u64))], &|_, _| {}));
+            // every other shard runs without donations to the farm manager and with more emergency
+            // exits: there the custody inequality has no slack and a single missing unit shows
+            let mut rep = crate::run_shards(cfg, shards, |s| farm_shard(cfg, s, n, vec![Box::new(c05::C05::new(cfg.seed * 37 + s as u64))], &|g, _| {
+                if s % 2 == 1 {
+                    g.weights[11] = 0;
+                    g.weights[8] += 6;
+                }
+            }));
             rep.floor("custody", 2_000);
             rep.floor("drain_everything", 30);
             fin(rep, cfg, "exploration",
